@@ -101,4 +101,12 @@ def withinMargin (hapX female : Bool) (a d : Rat) (auto xs ys : List Rat) : Bool
   withinOf (a + ((if female then 0 else -1) + (if hapX then 1 else 0))) d xs &&
   (if female then ys.all (fun v => decide (v ≤ a - 2)) else withinOf a d ys)
 
+/-- the decision of `compare_sex_chromosomes` on the median-difference path, from the location estimates alone:
+    `A` of the autosomes, `XF` / `XM` of chrX shifted for the female / male hypothesis, and the same pair for chrY
+    when it has bins (whatever estimator produced them: `np.median`, or `descriptives.weighted_median` when the table
+    has a weight column) -/
+def sexIsMaleOfEstimates (A XF XM : Rat) (Y : Option (Rat × Rat)) : Bool :=
+  decide (sexScore (absR (A - XF) / max (absR (A - XM)) (1/100))
+            (Y.map fun p => absR (A - p.1) / max (absR (A - p.2)) (1/100)) > 1)
+
 end CnvVerif
